@@ -37,7 +37,7 @@ func run(rt *rapid.T) {
 	pool := wmkit.GenKeyPool(rt, gen.Uniform(rt, 2, 12, "npool"))
 	unique := wmkit.UniqueValues(rt)
 	counter := 0
-	readded := false
+	readded, reverted := false, false
 	steps := gen.Uniform(rt, 5, 40, "steps")
 	collapsedBelow := false // a commit with a small collapse level happened
 	touchedAfterCollapse, reloaded, sameValueCollapsed, deleteAfterCollapse := false, false, false, false
@@ -47,6 +47,12 @@ func run(rt *rapid.T) {
 		clean := !m.Dirty
 		switch {
 		case k < 42:
+			if k < 8 && m.Revert(rt, "revert") {
+				// a value the key had before (possibly the one stored by the last commit) comes back
+				reverted = true
+				touchedAfterCollapse = touchedAfterCollapse || collapsedBelow
+				continue
+			}
 			ki := gen.Uniform(rt, 0, len(pool)-1, "ki")
 			m.Update(pool[ki], wmkit.GenValue(rt, ki, &counter, unique))
 			touchedAfterCollapse = touchedAfterCollapse || collapsedBelow
@@ -124,6 +130,7 @@ func run(rt *rapid.T) {
 	add(sameValueCollapsed, "rewrite-same-value-collapsed")
 	add(reloaded, "reload")
 	add(readded, "delete-and-re-add-identical")
+	add(reverted, "back-to-an-earlier-value")
 	add(len(es) == 0, "ends-empty")
 	add(len(es) == 1, "ends-single-entry")
 	ev.Case(m.History(), nt, cls...)
